@@ -108,6 +108,11 @@ def check_run(ctx, case):
             dc.run_adaptive(s, eo, lmin, lmax, -1.0, case["reuse"], 1)
         s, eo, f = dc.build(cfg, case["comps"], case["ref"], reuse=(s.operation, f))
         f.seen = set()
+    if case.get("nocache"):
+        # the integrand's value cache switched off by its public switch before the run: the reported point counts are still the numbers of distinct points
+        # evaluated (missed seed C13_b: the batch path stopped recording points when caching is off).  Only tolerance-stopped anchor cases use this option, so a
+        # tree that reports wrong counts cannot keep the harness in the loop.
+        f.deactivate_caching()
     log = dc.instrument(s, f)
     r = None
     with ctx.guard("B.stop.first", S_LOOP, st + "-raises"):
@@ -340,6 +345,11 @@ def anchor_cases():
     for norm, comps, ref, tol, mx in ((2, [["corner", [1.0, 3.0]], ["gauss", [6.0, 9.0], [0.3, 0.6]]], [3.7, 0.02], 1e-2, 120), ("inf", [["osc", [2.0, 1.0], 0.2]], [0.004], 1e2, 150)):
         cfg = {"strategy": "dimwise", "a": [0.0, 0.0], "b": [1.0, 1.0], "norm": norm, "opts": {}, "grid": {"type": "GlobalTrapezoidal", "boundary": True}, "late_reference": True}
         out.append({"kind": "run", "cfg": cfg, "comps": comps, "ref": ref, "refkind": "offset", "tol": tol, "max": mx, "min": 30})
+    for st in ("dimwise", "extend"):
+        cfgn = {"strategy": st, "a": [0.0, 0.0], "b": [1.0, 1.0], "norm": 2, "opts": {} if st == "dimwise" else {"version": 0, "number_of_refinements_before_extend": 2},
+                "grid": {"type": "GlobalTrapezoidal" if st == "dimwise" else "Trapezoidal", "boundary": True}}
+        out.append({"kind": "run", "cfg": cfgn, "comps": [["corner", [1.0, 3.0]], ["gauss", [6.0, 9.0], [0.3, 0.6]]], "ref": [0.0, 0.0], "refkind": "zero", "tol": 1e2, "max": None, "min": 0,
+                    "nocache": True})
     for st in ("dimwise", "extend"):
         cfg = {"strategy": st, "a": [0.0, 0.0], "b": [1.0, 1.0], "norm": "inf", "opts": {} if st == "dimwise" else {"version": 0, "number_of_refinements_before_extend": 2},
                "grid": {"type": "GlobalTrapezoidal" if st == "dimwise" else "Trapezoidal", "boundary": True}}
